@@ -428,9 +428,11 @@ class IntegratorLearner(BaseLearner):
                         self.propagate_removed(ival)
 
                     elif force_split and not ival.children:
-                        # If it already has children it has already been split
-                        assert ival in self.ivals
-                        self.priority_split.append(ival)
+                        # If it already has children it has already been split.
+                        # Queue it at most once, and only while it is still in
+                        # use (it may have been removed at a lower depth).
+                        if ival in self.ivals and ival not in self.priority_split:
+                            self.priority_split.append(ival)
 
     def tell_pending(self):
         pass
@@ -438,12 +440,18 @@ class IntegratorLearner(BaseLearner):
     def propagate_removed(self, ival: _Interval) -> None:
         def _propagate_removed_down(ival):
             ival.removed = True
-            self.ivals.discard(ival)
+            self._discard_ival(ival)
 
             for child in ival.children:
                 _propagate_removed_down(child)
 
         _propagate_removed_down(ival)
+
+    def _discard_ival(self, ival: _Interval) -> None:
+        # An interval that is no longer in use must not stay queued for a split.
+        self.ivals.discard(ival)
+        if ival in self.priority_split:
+            self.priority_split.remove(ival)
 
     def add_ival(self, ival: _Interval) -> None:
         for x in ival.points():
@@ -522,7 +530,7 @@ class IntegratorLearner(BaseLearner):
         # Remove the interval with the smallest error
         # if number of intervals is larger than max_ivals
         if len(self.ivals) > self.max_ivals:
-            self.ivals.remove(min(self.ivals, key=lambda x: (x.err, x.a)))
+            self._discard_ival(min(self.ivals, key=lambda x: (x.err, x.a)))
 
         return self._stack
 
